@@ -56,5 +56,18 @@ AtomsLaw == \A x \in AtomCases : OffEdges(Clouds[x.cloud], x.c4) /\ AtomsSize(Cl
 AtomsTable == [kind |-> "atoms",
                cases |-> {[atoms4 |-> Clouds[x.cloud], c4 |-> x.c4, w |-> [i \in 1..Len(Clouds[x.cloud]) |-> 1 + (i % 3)],
                            hist |-> AtomsHist(Clouds[x.cloud], [i \in 1..Len(Clouds[x.cloud]) |-> 1 + (i % 3)], x.c4)] : x \in AtomCases}]
-EmitUnits == (done /\ cfg = CHOOSE c \in [kind : {"assoc"}, e : Assoc, s2 : {1}] : TRUE) => (PrintT(ToJson(Units)) /\ PrintT(ToJson(GaussTable)) /\ PrintT(ToJson(AtomsTable)))
+(* rescale decisions: <<o, s>> pairs in 1/1000 nm at very different absolute sizes, tolerances 0, 1 % (the default), 5 % *)
+ScalePairs == {<<108, 100>>, <<1080, 1000>>, <<10800, 10000>>, <<262, 270>>, <<2620, 2700>>, <<1000, 1000>>, <<1009, 1000>>, <<100900, 100000>>,
+               <<1011, 1000>>, <<101, 100>>, <<520, 500>>, <<52, 50>>, <<5200, 5000>>, <<27, 25>>, <<500, 1000>>, <<2000, 1000>>, <<96, 100>>, <<9600, 10000>>,
+               <<995, 1000>>, <<199, 200>>}
+RescaleCases == {c \in [o : {p[1] : p \in ScalePairs}, s : {p[2] : p \in ScalePairs}, tolm : {0, 10, 50}] :
+                    <<c.o, c.s>> \in ScalePairs /\ ~OnToleranceEdge(c.o, c.s, c.tolm) /\ \A n \in {12, 16, 20} : ~RoundTie(n * c.o, c.s)}
+RescaleLaw == /\ \A c \in RescaleCases, lam \in {1, 4, 10, 25} : KeepAsIs(lam * c.o, lam * c.s, c.tolm) = KeepAsIs(c.o, c.s, c.tolm)
+              /\ \A c \in RescaleCases : KeepAsIs(c.o, c.s, c.tolm) => \A n \in {12, 16, 20} : AbsD(RoundDiv(n * c.o, c.s) - n) <= 1
+              \* both outcomes occur at every absolute size, so a decision taken on the DIFFERENCE in nm cannot pass
+              /\ \E a, b \in RescaleCases : a.s < 300 /\ b.s < 300 /\ KeepAsIs(a.o, a.s, a.tolm) /\ ~KeepAsIs(b.o, b.s, b.tolm) /\ AbsD(b.o - b.s) < 10
+RescaleTable == [kind |-> "rescale",
+                 cases |-> {[o |-> c.o, s |-> c.s, tolm |-> c.tolm, keep |-> KeepAsIs(c.o, c.s, c.tolm),
+                             lens |-> [i \in 1..3 |-> RoundDiv((8 + 4 * i) * c.o, c.s)]] : c \in RescaleCases}]
+EmitUnits == (done /\ cfg = CHOOSE c \in [kind : {"assoc"}, e : Assoc, s2 : {1}] : TRUE) => (PrintT(ToJson(Units)) /\ PrintT(ToJson(GaussTable)) /\ PrintT(ToJson(AtomsTable)) /\ PrintT(ToJson(RescaleTable)))
 =============================================================================
